@@ -76,6 +76,7 @@ def nameStepOfGen : Gen.C07NameStep → Option NameStep
   | .unrecognised _ => none
 
 def oneStepOfGen : Gen.C07Row → Option OneStep
+  | .emptyReqOk => some .emptyReqOk
   | .sortedNames => some .sortedNames
   | .optionsDefault => some .optionsDefault
   | .needAuthFunc => some .needAuthFunc
